@@ -61,7 +61,7 @@ def cfgMaskTypeName : Bool := false
 def cfgMaskDuplicate : Bool := false
 def cfgMaskImplType : Bool := false
 def cfgPreciseResolver : Bool := true
-def cfgExtraArgRequired : Bool := false
+def cfgExtraArgRequired : Bool := true
 def cfgSubscriptionChecked : Bool := true
 def cfgCatchesTypeError : Bool := true
 
